@@ -11,14 +11,14 @@
 (*               and/or, conditional expressions are all decided exactly.   *)
 (*               Results outside the exact domain are "und" (not claimed).  *)
 (*  Impl-shaped: (a) which sub-expressions ConstantFolding turns into a     *)
-(*               literal node (`folded`), (b) the C helper for double %     *)
-(*               (__Pyx_mod_double: fmod and a sign fix-up; equal to the    *)
-(*               reference since the repair of KF-C09-3), (c) the C type    *)
-(*               of an unfolded `&`, `|`, `^`: unary + / - / ~ of a bool    *)
-(*               literal gives IntNode.for_int, typed C `int`, and          *)
-(*               widest_numeric_type(int, bint) is its SECOND argument when *)
-(*               ranks are equal, so `int-typed ^ bint-typed` is a bint.    *)
-(*               Where these differ from the reference a hazard tag is set. *)
+(*               literal node (`folded`; every unary operator on a literal, *)
+(*               `~` included, gives a literal), (b) the C helper for       *)
+(*               double % (__Pyx_mod_double: fmod and a sign fix-up) that   *)
+(*               evaluates an unfolded float %.  The C type of an unfolded  *)
+(*               `&`, `|`, `^` is bint only if BOTH operands are bint, i.e. *)
+(*               where Python gives a bool as well, so it needs no model.   *)
+(*               TLC proves that the implementation-shaped evaluation       *)
+(*               equals the reference on every case (ImplAgrees).           *)
 (* An expression is built token by token in postfix order; every state with *)
 (* one value on the stack is a case (published for replay on compiled code).*)
 EXTENDS Integers, Sequences, FiniteSets, TLC, Json
@@ -39,8 +39,8 @@ AllCmp      == {"<", "<=", "==", "!=", ">", ">="}
 SomeChain   == {"<", "==", "!=", ">="}
 NoOps       == {}
 
-VARIABLES rpn, vals, ivals, lits, cints, tags
-vars == <<rpn, vals, ivals, lits, cints, tags>>
+VARIABLES rpn, vals, ivals, lits
+vars == <<rpn, vals, ivals, lits>>
 
 ---------------------------------------------------------------------------
 (* values *)
@@ -184,21 +184,19 @@ Top(s, i) == s[Len(s) - i]                   \* i = 0: top of stack
 Pop(s, k) == SubSeq(s, 1, Len(s) - k)
 Room == Len(rpn) < MaxTok
 
-Init == rpn = <<>> /\ vals = <<>> /\ ivals = <<>> /\ lits = <<>> /\ cints = <<>> /\ tags = {}
+Init == rpn = <<>> /\ vals = <<>> /\ ivals = <<>> /\ lits = <<>>
 
 \* a pushed operand must still be consumable by an operator within the token budget
 Push == /\ Room /\ H < 3 /\ Len(rpn) + 1 + (IF Ternary THEN (H + 1) \div 2 ELSE H) <= MaxTok
         /\ \E l \in Leaves :
              /\ rpn' = Append(rpn, Tok("leaf", l, ""))
              /\ vals' = Append(vals, LeafValue(l)) /\ ivals' = Append(ivals, LeafValue(l))
-             /\ lits' = Append(lits, TRUE) /\ cints' = Append(cints, FALSE)
-        /\ UNCHANGED tags
+             /\ lits' = Append(lits, TRUE)
 
-\* ConstantFolding.visit_UnopNode: "not", unary minus / plus of a literal, and any operator on a
-\* bool literal give a literal again; "~" of an int literal stays an operator node
-UnLit(op, x, lit) == lit /\ (op # "inv" \/ x.k = "bool")
-\* is the node typed C `int` (IntNode.for_int made from a bool literal, and operator nodes on top of it)?
-UnCInt(op, x, lit, ci) == IF op = "not" THEN FALSE ELSE (lit /\ x.k = "bool") \/ ci
+\* ConstantFolding.visit_UnopNode: "not", unary minus / plus / "~" (_handle_TildeNode) of a literal and any
+\* operator on a bool literal give a literal again (only literals with a U / L / LL suffix, which are not
+\* generated here, stay operator nodes under "~")
+UnLit(op, x, lit) == lit
 
 Unary == /\ Room /\ H >= 1
          /\ \E op \in UnOps :
@@ -207,8 +205,6 @@ Unary == /\ Room /\ H >= 1
               /\ vals' = Append(Pop(vals, 1), UnApply(op, Top(vals, 0)))
               /\ ivals' = Append(Pop(ivals, 1), UnApply(op, Top(ivals, 0)))
               /\ lits' = Append(Pop(lits, 1), UnLit(op, Top(vals, 0), Top(lits, 0)))
-              /\ cints' = Append(Pop(cints, 1), UnCInt(op, Top(vals, 0), Top(lits, 0), Top(cints, 0)))
-         /\ UNCHANGED tags
 
 \* visit_BinopNode: folded into a literal only if both operands are literals and the result is not a
 \* float; and/or: the chosen operand node is kept as it is
@@ -222,19 +218,13 @@ Binary == /\ Room /\ H >= 2
                LET x == Top(vals, 1) y == Top(vals, 0) ix == Top(ivals, 1) iy == Top(ivals, 0)
                    r == BinRef(op, x, y, FMod)
                    lit == BinLit(op, x, y, r, Top(lits, 1), Top(lits, 0))
-                   plain == BinRef(op, ix, iy, FModC)
-                   \* NumBinopNode.compute_c_result_type: an unfolded bit operation `int ^ bint` is typed bint
-                   asbint == op \in {"&", "|", "^"} /\ ~lit /\ Top(cints, 1) /\ ix.k = "int" /\ iy.k = "bool" /\ plain.k = "int"
-                   ir == IF asbint THEN MkBool(plain.v # 0) ELSE plain
-                   ci == IF op = "and" THEN (IF Truthy(x) THEN Top(cints, 0) ELSE Top(cints, 1))
-                         ELSE IF op = "or" THEN (IF Truthy(x) THEN Top(cints, 1) ELSE Top(cints, 0))
-                         ELSE ~lit /\ ~asbint /\ Top(cints, 1) /\ Top(cints, 0) IN
+                   \* an unfolded float % goes through the C helper; NumBinopNode.compute_c_result_type types an
+                   \* unfolded `&`, `|`, `^` as bint only if both operand types are bint (BitResult says the same)
+                   ir == BinRef(op, ix, iy, FModC) IN
                /\ BinDefined(op, x, y) /\ BinDefined(op, ix, iy)
                /\ rpn' = Append(rpn, Tok("bin", op, ""))
                /\ vals' = Append(Pop(vals, 2), r) /\ ivals' = Append(Pop(ivals, 2), ir)
-               /\ lits' = Append(Pop(lits, 2), lit) /\ cints' = Append(Pop(cints, 2), ci)
-               /\ tags' = tags \cup (IF asbint THEN {"cint-bint-bitop"} ELSE {})
-                               \cup (IF op = "%" /\ BinRef(op, ix, iy, FMod) # plain THEN {"cdouble-mod-zero-sign"} ELSE {})
+               /\ lits' = Append(Pop(lits, 2), lit)
 
 Compare == /\ Room /\ H >= 2
            /\ \E op \in CmpOps :
@@ -242,8 +232,7 @@ Compare == /\ Room /\ H >= 2
                 /\ rpn' = Append(rpn, Tok("cmp", op, ""))
                 /\ vals' = Append(Pop(vals, 2), MkBool(Cmp(op, Top(vals, 1), Top(vals, 0))))
                 /\ ivals' = Append(Pop(ivals, 2), MkBool(Cmp(op, Top(ivals, 1), Top(ivals, 0))))
-                /\ lits' = Append(Pop(lits, 2), TRUE) /\ cints' = Append(Pop(cints, 2), FALSE)
-           /\ UNCHANGED tags
+                /\ lits' = Append(Pop(lits, 2), TRUE)
 
 All3Decided == /\ H >= 3 /\ \A i \in 0..2 : Decided(Top(vals, i)) /\ Decided(Top(ivals, i))
 
@@ -252,8 +241,7 @@ Chain == /\ Ternary /\ Room /\ All3Decided
               LET f(s) == MkBool(Cmp(o1, Top(s, 2), Top(s, 1)) /\ Cmp(o2, Top(s, 1), Top(s, 0))) IN
               /\ rpn' = Append(rpn, Tok("chain", o1, o2))
               /\ vals' = Append(Pop(vals, 3), f(vals)) /\ ivals' = Append(Pop(ivals, 3), f(ivals))
-              /\ lits' = Append(Pop(lits, 3), TRUE) /\ cints' = Append(Pop(cints, 3), FALSE)
-         /\ UNCHANGED tags
+              /\ lits' = Append(Pop(lits, 3), TRUE)
 
 \* x in (a, b) / x not in (a, b): identity or equality with some item
 Member == /\ Ternary /\ Room /\ All3Decided
@@ -262,8 +250,7 @@ Member == /\ Ternary /\ Room /\ All3Decided
                            IN MkBool(IF neg THEN ~hit ELSE hit) IN
                /\ rpn' = Append(rpn, Tok("in", IF neg THEN "not in" ELSE "in", ""))
                /\ vals' = Append(Pop(vals, 3), f(vals)) /\ ivals' = Append(Pop(ivals, 3), f(ivals))
-               /\ lits' = Append(Pop(lits, 3), TRUE) /\ cints' = Append(Pop(cints, 3), FALSE)
-          /\ UNCHANGED tags
+               /\ lits' = Append(Pop(lits, 3), TRUE)
 
 \* a if c else b   (stack: a c b)
 Cond == /\ Ternary /\ Room /\ All3Decided
@@ -271,8 +258,6 @@ Cond == /\ Ternary /\ Room /\ All3Decided
         /\ vals' = Append(Pop(vals, 3), IF Truthy(Top(vals, 1)) THEN Top(vals, 2) ELSE Top(vals, 0))
         /\ ivals' = Append(Pop(ivals, 3), IF Truthy(Top(ivals, 1)) THEN Top(ivals, 2) ELSE Top(ivals, 0))
         /\ lits' = Append(Pop(lits, 3), IF Truthy(Top(vals, 1)) THEN Top(lits, 2) ELSE Top(lits, 0))
-        /\ cints' = Append(Pop(cints, 3), IF Truthy(Top(vals, 1)) THEN Top(cints, 2) ELSE Top(cints, 0))
-        /\ UNCHANGED tags
 
 Next == Push \/ Unary \/ Binary \/ Compare \/ Chain \/ Member \/ Cond
 Spec == Init /\ [][Next]_vars
@@ -301,17 +286,11 @@ RefSound ==
        /\ BothInt(x, y) => /\ BAnd(x.v, y.v) + BOr(x.v, y.v) = x.v + y.v
                            /\ BXor(x.v, y.v) = BOr(x.v, y.v) - BAnd(x.v, y.v)
 
-(* the implementation-shaped evaluation differs from the reference only where a hazard tag was set;   *)
-(* with the % rule alone the difference is the sign of a zero: same kind, same magnitude             *)
-ImplDiffersOnlyWhereTagged ==
-  /\ (vals # ivals) => tags # {}
-  /\ tags \subseteq {"cdouble-mod-zero-sign"} =>
-       \A i \in 1..Len(vals) : LET x == vals[i] y == ivals[i] IN
-          (Decided(x) /\ Decided(y)) => (x.k = y.k /\ x.v = y.v /\ x.n = y.n /\ x.d = y.d)
-  /\ Len(cints) = Len(vals) /\ Len(lits) = Len(vals) /\ Len(ivals) = Len(vals)
-Hazard == Case /\ vals[1] # ivals[1]
+(* the implementation-shaped evaluation (folded or not, C helper for float %) agrees with the reference *)
+(* on every stack entry of every state: no hazard is left                                               *)
+ImplAgrees == vals = ivals /\ Len(lits) = Len(vals)
 
 Publish == (Dump /\ Case) =>
-             PrintT("@@" \o ToJson([rpn |-> rpn, val |-> vals[1], ival |-> ivals[1], folded |-> lits[1], tags |-> tags]))
+             PrintT("@@" \o ToJson([rpn |-> rpn, val |-> vals[1], folded |-> lits[1]]))
 CountErr == (Dump /\ Complete /\ ~Case) => PrintT("@@" \o ToJson([skipped |-> vals[1].k]))
 =============================================================================
